@@ -487,19 +487,330 @@ def idEvs (X : SetOracle) (σ : Sched) : Nat → Path → Value → List Ev
   | f + 1, path, v =>
     .enter path v :: (idEvKids (idEvs X σ f) path (ordKids X σ path v) ++ [.exit path v])
 
-theorem transformKids_id (X : SetOracle) (σ : Sched) (t : Transformer) (f : Nat) (path : Path) :
+theorem transformKids_id (rec' : TRec) (ev : Path → Value → List Ev) (path : Path) :
     ∀ (cs : List (PathStep × Value)) (log : List Ev),
-      (∀ c ∈ cs, ∀ log path, transformFuel X σ t f log path c.2 =
-        (log ++ idEvs X σ f path c.2, .ok c.2)) →
-      transformKids (transformFuel X σ t f) log path cs =
-        (log ++ idEvKids (idEvs X σ f) path cs, .ok (cs.map (·.2)))
+      (∀ c ∈ cs, ∀ log path, rec' log path c.2 = (log ++ ev path c.2, .ok c.2)) →
+      transformKids rec' log path cs = (log ++ idEvKids ev path cs, .ok (cs.map (·.2)))
   | [], log, _ => by simp [transformKids, idEvKids]
   | (s, c) :: rest, log, h => by
     simp only [transformKids, idEvKids]
     rw [h (s, c) (by simp) log (path ++ [s])]
     simp only
-    rw [transformKids_id X σ t f path rest _ (fun c hc => h c (List.mem_cons_of_mem _ hc))]
+    rw [transformKids_id rec' ev path rest _ (fun c hc => h c (List.mem_cons_of_mem _ hc))]
     simp [List.append_assoc]
+
+theorem schedKids_nil (order : List String) : schedKids order [] = [] := by
+  induction order with
+  | nil => rfl
+  | cons n order ih => simp [schedKids, findAttr] at ih ⊢
+
+theorem ordKids_of_kids_nil {X : SetOracle} {σ : Sched} {path : Path} {v : Value}
+    (h : kids X v = []) : ordKids X σ path v = [] := by
+  simp only [ordKids, h]
+  split
+  · exact schedKids_nil _
+  · rfl
+
+theorem ordKids_not_object {X : SetOracle} {σ : Sched} {path : Path} {v : Value}
+    (h : ∀ ns ts os, v.ty ≠ .object ns ts os) : ordKids X σ path v = kids X v := by
+  obtain ⟨t, p⟩ := v
+  cases t <;> first
+    | rfl
+    | exact absurd rfl (h _ _ _)
+
+
+/-- **rebuilding from unchanged members gives the value back.**  If the recursive
+call returns every member as it is, the `switch` of `transform` returns the value
+as it is, having visited the members in `ordKids` order. -/
+theorem rebuild_id {X : SetOracle} (hX : IterPerm X) {σ : Sched} (hσ : SchedOk σ) (rec' : TRec)
+    (ev : Path → Value → List Ev) (v : Value) (hg : Good X v)
+    (ih : ∀ c ∈ kids X v, ∀ log path, rec' log path c.2 = (log ++ ev path c.2, .ok c.2))
+    (log : List Ev) (path : Path) :
+    rebuild X σ rec' log path v = (log ++ idEvKids ev path (ordKids X σ path v), .ok v) := by
+  by_cases hn : (v.isNull || !v.isKnown) = true
+  · have hk : kids X v = [] := by simp [kids, hn]
+    simp [rebuild, hn, ordKids_of_kids_nil hk, idEvKids]
+  · have hk : kids X v = children X v.unmark := by simp [kids, hn]
+    rw [hk] at ih
+    simp only [Bool.or_eq_true, Bool.not_eq_true', not_or, Bool.not_eq_true, Bool.not_eq_false] at hn
+    obtain ⟨hnull, hknown⟩ := hn
+    have hraw := raw_of_flags hnull hknown
+    have hsu : shaped v.ty v.v.unmark1 = true := shaped_unmark1 hg.shaped
+    have hmu := shaped_unmark1_notMarked hg.shaped
+    have hrestore := withMarks_restore hg.shaped
+    have hty := hg.ty
+    obtain ⟨t, p⟩ := v
+    simp only at hraw hsu hmu hrestore hty
+    cases t with
+    | list e =>
+      obtain ⟨vs, hv⟩ := shaped_known_cases hsu hmu hraw.1 hraw.2
+      have hcs : children X (⟨.list e, p⟩ : Value).unmark = seqKids e 0 vs := by
+        simp only [Value.unmark, hv, children]
+      rw [ordKids_not_object (by intro _ _ _ h; cases h), hk, hcs]
+      rw [hcs] at ih
+      simp only [rebuild, hnull, hknown, Bool.not_true, Bool.or_self, Bool.false_eq_true, if_false, hcs]
+      cases vs with
+      | nil => simp [seqKids, idEvKids]
+      | cons w ws =>
+        simp only [seqKids, List.isEmpty_cons, Bool.false_eq_true, if_false]
+        have := transformKids_id rec' ev path (seqKids e 0 (w :: ws)) log ih
+        simp only [seqKids] at this
+        rw [this]
+        simp only
+        have hv' := seqKids_vals e 0 (w :: ws)
+        simp only [seqKids] at hv'
+        rw [hv', listVal_id e (equals_self (tyOk_list hty)) (w :: ws) (by simp)]
+        simp only [Res.map, Value.marks]
+        rw [hv] at hrestore
+        rw [hrestore]
+    | map e =>
+      obtain ⟨ks, vs, hv⟩ := shaped_known_cases hsu hmu hraw.1 hraw.2
+      have hsh := hsu
+      rw [hv] at hsh
+      simp only [shaped, Bool.and_eq_true, beq_iff_eq, decide_eq_true_eq] at hsh
+      have hcs : children X (⟨.map e, p⟩ : Value).unmark = mapKids e ks vs := by
+        simp only [Value.unmark, hv, children]
+      rw [ordKids_not_object (by intro _ _ _ h; cases h), hk, hcs]
+      rw [hcs] at ih
+      simp only [rebuild, hnull, hknown, Bool.not_true, Bool.or_self, Bool.false_eq_true, if_false, hcs]
+      cases vs with
+      | nil =>
+        have : mapKids e ks [] = [] := by cases ks <;> rfl
+        simp [this, idEvKids]
+      | cons w ws =>
+        cases ks with
+        | nil => simp at hsh
+        | cons k ks =>
+          simp only [mapKids, List.isEmpty_cons, Bool.false_eq_true, if_false]
+          have := transformKids_id rec' ev path (mapKids e (k :: ks) (w :: ws)) log ih
+          simp only [mapKids] at this
+          rw [this]
+          simp only
+          have hv' := mapKids_vals e (k :: ks) (w :: ws) hsh.1.1
+          simp only [mapKids] at hv'
+          rw [hv']
+          simp only [Value.unmark, hv]
+          rw [mapVal_id e (equals_self (tyOk_map hty)) (k :: ks) (w :: ws) (by simp)]
+          simp only [Res.map, Value.marks]
+          rw [hv] at hrestore
+          rw [hrestore]
+    | tuple ts =>
+      obtain ⟨vs, hv, hlen⟩ := shaped_known_cases hsu hmu hraw.1 hraw.2
+      have hcs : children X (⟨.tuple ts, p⟩ : Value).unmark = tupKids 0 ts vs := by
+        simp only [Value.unmark, hv, children]
+      rw [ordKids_not_object (by intro _ _ _ h; cases h), hk, hcs]
+      rw [hcs] at ih
+      simp only [rebuild, hnull, hknown, Bool.not_true, Bool.or_self, Bool.false_eq_true, if_false, hcs]
+      by_cases hemp : (tupKids 0 ts vs).isEmpty = true
+      · have : tupKids 0 ts vs = [] := List.isEmpty_iff.mp hemp
+        simp [this, idEvKids]
+      · simp only [hemp, Bool.false_eq_true, if_false]
+        rw [transformKids_id rec' ev path (tupKids 0 ts vs) log ih]
+        simp only
+        have hv' := tupKids_vals 0 ts vs hlen
+        simp only [tupleVal, hv'.1, hv'.2, Value.marks]
+        rw [hv] at hrestore
+        rw [hrestore]
+    | set e =>
+      obtain ⟨ids, vs, hv⟩ := shaped_known_cases hsu hmu hraw.1 hraw.2
+      have hsh := hsu
+      rw [hv] at hsh
+      simp only [shaped, Bool.and_eq_true, beq_iff_eq, Bool.not_eq_true'] at hsh
+      have hst := SetsStable_unmark1 hg.sets
+      simp only [hv, SetsStable] at hst
+      have hcs : children X (⟨.set e, p⟩ : Value).unmark = setKids e (X.iter e ids vs) := by
+        simp only [Value.unmark, hv, children]
+      rw [ordKids_not_object (by intro _ _ _ h; cases h), hk, hcs]
+      rw [hcs] at ih
+      simp only [rebuild, hnull, hknown, Bool.not_true, Bool.or_self, Bool.false_eq_true, if_false, hcs]
+      by_cases hemp : (setKids e (X.iter e ids vs)).isEmpty = true
+      · have : setKids e (X.iter e ids vs) = [] := List.isEmpty_iff.mp hemp
+        simp [this, idEvKids]
+      · simp only [hemp, Bool.false_eq_true, if_false]
+        rw [transformKids_id rec' ev path _ log ih]
+        simp only
+        have hne : X.iter e ids vs ≠ [] := by
+          intro h0; rw [h0] at hemp; simp [setKids] at hemp
+        rw [setKids_vals, setVal_id X e (equals_self (tyOk_set hty)) ids vs (X.iter e ids vs) hne
+          (fun m hm => containsMarkedL_mem hsh.1.2 m ((hX _ _ _).mem_iff.mp hm)) hst.1 hst.2.1]
+        simp only [Res.map, Value.marks]
+        rw [hv] at hrestore
+        rw [hrestore]
+    | object ns ts os =>
+      obtain ⟨vs, hv, h1, h2⟩ := shaped_known_cases hsu hmu hraw.1 hraw.2
+      have hsh := hsu
+      rw [hv] at hsh
+      simp only [shaped, Bool.and_eq_true, beq_iff_eq, decide_eq_true_eq] at hsh
+      obtain ⟨⟨⟨⟨⟨_, _⟩, _⟩, htv⟩, hnd⟩, _⟩ := hsh
+      have hos := (tyOk_object hty).2
+      have hcs : children X (⟨.object ns ts os, p⟩ : Value).unmark = objKids ns ts vs := by
+        simp only [Value.unmark, hv, children]
+      have hord : ordKids X σ path ⟨.object ns ts os, p⟩ = schedKids (σ path ns) (objKids ns ts vs) := by
+        simp only [ordKids, hk, hcs]
+      rw [hord]
+      rw [hcs] at ih
+      simp only [rebuild, hnull, hknown, Bool.not_true, Bool.or_self, Bool.false_eq_true, if_false, hcs]
+      by_cases hemp : Ty.equals (.object ns ts os) (.object [] [] []) = true
+      · -- the empty object: no attribute types, hence no members
+        have hts : ts = [] := by
+          simp only [Ty.equals, Bool.and_eq_true, beq_iff_eq] at hemp
+          exact List.eq_nil_of_length_eq_zero hemp.1
+        subst hts
+        have : objKids ns [] vs = [] := by cases ns <;> rfl
+        simp [hemp, this, schedKids_nil, idEvKids]
+      · simp only [hemp, Bool.false_eq_true, if_false]
+        have hperm := schedKids_perm ts vs (hσ path ns) hnd h1 htv
+        have ih' : ∀ c ∈ schedKids (σ path ns) (objKids ns ts vs), ∀ log path,
+            rec' log path c.2 = (log ++ ev path c.2, .ok c.2) :=
+          fun c hc => ih c (hperm.mem_iff.mp hc)
+        rw [transformKids_id rec' ev path _ log ih']
+        simp only
+        rw [unsched_sched ts vs (hσ path ns) hnd h1 htv]
+        have hv' := objKids_vals ns ts vs h1 htv
+        simp only [objectVal, hv'.1, hv'.2, Value.marks, ← hos]
+        rw [hv] at hrestore
+        rw [hrestore]
+    | bool => simp [rebuild, hnull, hknown, ordKids, hk, Value.unmark, children, idEvKids]
+    | number => simp [rebuild, hnull, hknown, ordKids, hk, Value.unmark, children, idEvKids]
+    | string => simp [rebuild, hnull, hknown, ordKids, hk, Value.unmark, children, idEvKids]
+    | dyn => simp [rebuild, hnull, hknown, ordKids, hk, Value.unmark, children, idEvKids]
+    | capsule i => simp [rebuild, hnull, hknown, ordKids, hk, Value.unmark, children, idEvKids]
+
+/-- **identity transform**: the value comes back as it is, and the `Enter` /
+`Exit` calls are those of `idEvs` -/
+theorem transformFuel_id {X : SetOracle} (hX : IterPerm X) {σ : Sched} (hσ : SchedOk σ) :
+    ∀ (f : Nat) (v : Value), v.v.depth < f → Good X v → ∀ (log : List Ev) (path : Path),
+      transformFuel X σ (postorder idCb) f log path v = (log ++ idEvs X σ f path v, .ok v)
+  | 0, _, h, _ => by omega
+  | f + 1, v, hd, hg => by
+    intro log path
+    have ih : ∀ c ∈ kids X v, ∀ log path,
+        transformFuel X σ (postorder idCb) f log path c.2 = (log ++ idEvs X σ f path c.2, .ok c.2) :=
+      fun c hc => transformFuel_id hX hσ f c.2 (by have := kids_depth_lt hX v c hc; omega)
+        (kids_good hX v hg c hc)
+    have hen : ∀ l, (postorder idCb).enter l path v = .ok v := fun _ => rfl
+    have hex : ∀ l, (postorder idCb).exit l path v = .ok v := fun _ => rfl
+    simp only [transformFuel, hen, idEvs]
+    rw [rebuild_id hX hσ _ (idEvs X σ f) v hg ih]
+    simp only [hex]
+    simp [List.append_assoc]
+
+theorem transform_id_eq {X : SetOracle} (hX : IterPerm X) {σ : Sched} (hσ : SchedOk σ) (v : Value)
+    (hg : Good X v) :
+    transform X σ idCb v = (idEvs X σ (v.v.depth + 1) [] v, .ok v) := by
+  simp only [transform, transformWith]
+  rw [transformFuel_id hX hσ _ v (by omega) hg]
+  simp
+
+/-! ### the callback sees the paths (and members) `Walk` sees -/
+
+/-- position-free pre-order listing -/
+def preVisKids (rec : Path → Value → List Visit) (path : Path) : List (PathStep × Value) → List Visit
+  | [] => []
+  | (s, c) :: rest => rec (path ++ [s]) c ++ preVisKids rec path rest
+
+def preVis (X : SetOracle) : Nat → Path → Value → List Visit
+  | 0, _, _ => []
+  | f + 1, path, v => (path, v) :: preVisKids (preVis X f) path (kids X v)
+
+theorem preKids_visit (X : SetOracle) (f : Nat) (pos : Pos) (path : Path)
+    (ih : ∀ pos path v, (preFuel X f pos path v).map Node.visit = preVis X f path v) :
+    ∀ (cs : List (PathStep × Value)) (i : Nat),
+      (preKids (preFuel X f) pos path i cs).map Node.visit = preVisKids (preVis X f) path cs
+  | [], _ => rfl
+  | (s, c) :: rest, i => by
+    simp only [preKids, preVisKids, List.map_append, ih, preKids_visit X f pos path ih rest (i + 1)]
+
+theorem preFuel_visit (X : SetOracle) : ∀ (f : Nat) (pos : Pos) (path : Path) (v : Value),
+    (preFuel X f pos path v).map Node.visit = preVis X f path v
+  | 0, _, _, _ => rfl
+  | f + 1, pos, path, v => by
+    simp only [preFuel, preVis, List.map_cons, Node.visit,
+      preKids_visit X f pos path (preFuel_visit X f) (kids X v) 0]
+
+theorem preVisKids_perm (rec : Path → Value → List Visit) (path : Path) :
+    ∀ {l1 l2 : List (PathStep × Value)}, l1.Perm l2 →
+      (preVisKids rec path l1).Perm (preVisKids rec path l2) := by
+  intro l1 l2 h
+  induction h with
+  | nil => exact List.Perm.refl _
+  | cons x _ ih => obtain ⟨s, c⟩ := x; simp only [preVisKids]; exact List.Perm.append_left _ ih
+  | swap x y l =>
+    obtain ⟨s, c⟩ := x
+    obtain ⟨s', c'⟩ := y
+    simp only [preVisKids, ← List.append_assoc]
+    exact List.Perm.append_right _ List.perm_append_comm
+  | trans _ _ ih1 ih2 => exact ih1.trans ih2
+
+theorem exits_append (a b : List Ev) : exits (a ++ b) = exits a ++ exits b := by
+  simp [exits, List.filterMap_append]
+
+/-- the members `transform` visits are the members `walk` visits, in another order -/
+theorem ordKids_perm {X : SetOracle} {σ : Sched} (hσ : SchedOk σ) (path : Path) (v : Value)
+    (hs : shapedV v = true) : (ordKids X σ path v).Perm (kids X v) := by
+  by_cases hn : (v.isNull || !v.isKnown) = true
+  · have hk : kids X v = [] := by simp [kids, hn]
+    rw [ordKids_of_kids_nil hk, hk]
+  · have hk : kids X v = children X v.unmark := by simp [kids, hn]
+    simp only [Bool.or_eq_true, Bool.not_eq_true', not_or, Bool.not_eq_true, Bool.not_eq_false] at hn
+    have hraw := raw_of_flags hn.1 hn.2
+    have hsu : shaped v.ty v.v.unmark1 = true := shaped_unmark1 hs
+    have hmu := shaped_unmark1_notMarked hs
+    obtain ⟨t, p⟩ := v
+    cases t with
+    | object ns ts os =>
+      obtain ⟨vs, hv, h1, _⟩ := shaped_known_cases hsu hmu hraw.1 hraw.2
+      have hsh := hsu
+      simp only at hsh hv
+      rw [hv] at hsh
+      simp only [shaped, Bool.and_eq_true, beq_iff_eq, decide_eq_true_eq] at hsh
+      have hcs : children X (⟨.object ns ts os, p⟩ : Value).unmark = objKids ns ts vs := by
+        simp only [Value.unmark, hv, children]
+      simp only [ordKids, hk, hcs]
+      exact schedKids_perm ts vs (hσ path ns) hsh.1.2 h1 hsh.1.1.2
+    | _ => rw [ordKids_not_object (by intro _ _ _ h; cases h)]
+
+theorem exits_idEvKids (X : SetOracle) (σ : Sched) (f : Nat) (path : Path)
+    (ih : ∀ c path, (exits (idEvs X σ f path c)).Perm (preVis X f path c)) :
+    ∀ (cs : List (PathStep × Value)),
+      (exits (idEvKids (idEvs X σ f) path cs)).Perm (preVisKids (preVis X f) path cs)
+  | [] => by simp [idEvKids, preVisKids, exits]
+  | (s, c) :: rest => by
+    simp only [idEvKids, preVisKids, exits_append]
+    exact (ih c _).append (exits_idEvKids X σ f path ih rest)
+
+/-- the `Exit` calls of an identity transform are the visits of `Walk`, reordered
+(post-order, attributes in schedule order) -/
+theorem exits_idEvs_perm {X : SetOracle} (hX : IterPerm X) {σ : Sched} (hσ : SchedOk σ) :
+    ∀ (f : Nat) (v : Value), shapedV v = true → ∀ (path : Path),
+      (exits (idEvs X σ f path v)).Perm (preVis X f path v)
+  | 0, _, _, _ => by simp [idEvs, preVis, exits]
+  | f + 1, v, hs, path => by
+    have ih : ∀ c ∈ kids X v, ∀ path, (exits (idEvs X σ f path c.2)).Perm (preVis X f path c.2) :=
+      fun c hc path => exits_idEvs_perm hX hσ f c.2 (kids_shaped hX v hs c hc) path
+    have hperm := ordKids_perm (X := X) hσ path v hs
+    simp only [idEvs, preVis]
+    have h1 : exits (.enter path v :: (idEvKids (idEvs X σ f) path (ordKids X σ path v) ++ [.exit path v])) =
+        exits (idEvKids (idEvs X σ f) path (ordKids X σ path v)) ++ [(path, v)] := by
+      simp [exits, List.filterMap_append]
+    rw [h1]
+    refine List.perm_append_comm.trans ?_
+    simp only [List.singleton_append]
+    refine List.Perm.cons _ ?_
+    refine List.Perm.trans ?_ (preVisKids_perm (preVis X f) path hperm)
+    -- member by member, for the members actually visited
+    suffices hk : ∀ (cs : List (PathStep × Value)), (∀ c ∈ cs, c ∈ kids X v) →
+        (exits (idEvKids (idEvs X σ f) path cs)).Perm (preVisKids (preVis X f) path cs) from
+      hk _ (fun c hc => hperm.mem_iff.mp hc)
+    intro cs
+    induction cs with
+    | nil => intro _; simp [idEvKids, preVisKids, exits]
+    | cons sc rest ihl =>
+      intro hmem
+      obtain ⟨s, c⟩ := sc
+      simp only [idEvKids, preVisKids, exits_append]
+      exact (ih (s, c) (hmem _ (by simp)) _).append
+        (ihl (fun x hx => hmem x (List.mem_cons_of_mem _ hx)))
 
 end Walk
 end CtyModel
